@@ -130,6 +130,8 @@ func vAssert(b bool, msg string) {
 	}
 }
 
+func vExpect(b bool, msg string) { vAssert(b, msg) }
+
 func vCover(label string) { vMu.Lock(); vCovers[label] = true; vMu.Unlock() }
 func vObserve(label string, x uint64) {
 	vMu.Lock()
